@@ -4,7 +4,7 @@
    the vg helpers they call (normalize, almost_unit_length, perpendicular, reject, angle, signed_angle, rotate).
    Definitions only.  fit_from_points is modelled WITH fixes/C13-fit-real-normal.diff applied (np.linalg.eigh);
    the eigen-solver itself is a section argument (LAPACK is not modelled), see `eig_contract` in proofs/P_plane_fit.v. *)
-From Coq Require Import ZArith List Bool.
+From Coq Require Import ZArith List Bool Arith.
 From PW Require Import Num Vec Mat NpList Result.
 From PW.model Require Import M_plane.
 Import ListNotations.
@@ -24,7 +24,9 @@ Section PlaneCtor.
   Definition almost_unit_length (atol : F) (v : vec3 F) : bool :=
     nleb O (nabs O (nsub O (vnorm O v) (n1 O))) atol.
 
-  (* Plane(reference_point, normal, direction_decimals): atol = 0.1 ** direction_decimals *)
+  (* Plane(reference_point, normal, direction_decimals): atol = 0.1 ** direction_decimals.  The model takes atol
+     itself; the step decimals -> 0.1 ** d (a binary64 power) is made by the harness, which passes the value the
+     code computes, and is therefore tied by the correspondence check only (default_atol is the d = 6 value). *)
   Definition plane_ctor (atol : F) (ref n : vec3 F) : result (plane F) :=
     if almost_unit_length atol n then Ok (MkPlane ref n) else Raise ValueError.
 
@@ -105,8 +107,11 @@ Section PlaneCtor.
 
   Section Fit.
     Context (eigh : mat3 F -> eig3 F).
+    (* with fewer than two points np.cov is NaN (division by N - 1 = 0, or the mean of nothing) and LAPACK gives up:
+       LinAlgError.  This also keeps the model from dividing by zero in `centroid` / `cov_entry`. *)
     Definition fit_from_points (ps : list (vec3 F)) : result (plane F) :=
-      plane_ctor default_atol (centroid ps) (fit_normal (eigh (cov ps))).
+      if (length ps <=? 1)%nat then Raise LinAlgError
+      else plane_ctor default_atol (centroid ps) (fit_normal (eigh (cov ps))).
   End Fit.
   (* dtype of the fitted normal: eigh of a real symmetric matrix is real (np.linalg.eig at the pinned commit
      returned complex128, which is what fixes/C13-fit-real-normal.diff repairs) *)
